@@ -1,6 +1,6 @@
-#!/usr/bin/env python3
+#!/venv/bin/python
 """Re-confirm every seeded change on the current /repo HEAD and record which check catches it.
-   usage: seedall.py confirm|detect|meta      (confirm: seedcheck.sh per seed, 2 at a time; detect: seedrun.sh per (seed, check),
+   usage: seedall.py confirm|detect|meta      (confirm: seedcheck.sh per seed, three at a time; detect: seedrun.sh per (seed, check),
    one lane per check so that the same check never runs twice at once; meta: write seeded/<id>/meta.json from the two logs)"""
 import concurrent.futures as cf, glob, json, os, re, subprocess, sys
 
@@ -39,8 +39,8 @@ def lane(check, seeds):
 
 
 if sys.argv[1] == 'confirm':
-    # two at a time only: the repository's environment-naming tests spawn processes with timeouts and fail on a loaded machine
-    with cf.ThreadPoolExecutor(2) as ex:
+    # three at a time
+    with cf.ThreadPoolExecutor(3) as ex:
         for seed, line in ex.map(confirm, SEEDS):
             print(line, flush=True)
 elif sys.argv[1] == 'detect':
@@ -56,6 +56,8 @@ elif sys.argv[1] == 'meta':
         old = json.load(open(d + '/meta.json')) if os.path.exists(d + '/meta.json') else {}
         conf = open(f'{LOG}/confirm-{s}.txt').read() if os.path.exists(f'{LOG}/confirm-{s}.txt') else ''
         m = re.search(r"apply=(\w+) demo_clean_rc=(\d+) demo_mut_rc=(\d+) failed_lines=(\d+) tests='([^']*)'", conf)
+        # the suite is run in two parts (see seedcheck.sh): "1 failed, 5194 passed ... + 14 passed, 6 skipped ..." is the baseline result
+        # (the one failure, test_gates_are_wired::test_a_clean_tree_exits_zero, needs `uv`, which is not installed)
         det = [json.load(open(f)) for f in sorted(glob.glob(f'{LOG}/detect-{s}-*.json'))]
         notes = open(d + '/notes.md').read() if os.path.exists(d + '/notes.md') else ''
         files = sorted(set(re.findall(r'^\+\+\+ b/(\S+)', open(d + '/patch.diff').read(), re.M)))
